@@ -48,6 +48,7 @@ const (
 	BNotFound // ctx.NotFound() (status 404, fixed body)
 	BString   // ctx.String(status, "%s", body)
 	BData     // ctx.Data(status, type, body)
+	BRaw      // ctx.Response.SetBodyRaw(body): the response refers to the handler's slice
 )
 
 // framing header fields a handler may (mistakenly, or when relaying another server's header) set itself
@@ -217,6 +218,8 @@ func (p Prog) run(ctx *app.RequestContext, salt byte) {
 		ctx.Data(p.Status, "application/octet-stream", data)
 	case BSetBody:
 		ctx.Response.SetBody(data)
+	case BRaw:
+		ctx.Response.SetBodyRaw(data)
 	case BAppendWrite:
 		h := len(data) / 2
 		ctx.Response.AppendBody(data[:h])
@@ -458,7 +461,7 @@ func programs(thorough bool) []Prog {
 				}
 			}
 			for _, n := range []int{0, 1, 4097} {
-				for _, b := range []int{BAbortMsg, BString, BData} {
+				for _, b := range []int{BAbortMsg, BString, BData, BRaw} {
 					out = append(out, Prog{Status: st, Body: b, Size: n, Close: cl})
 				}
 			}
@@ -537,6 +540,7 @@ func reducedProgs() []Prog {
 		{Status: 200, Body: BStreamChunked, Size: 5, TE: TECLCorrect},
 		{Status: 204, Body: BStreamLen, Size: 5, StatusLast: true},
 		{Status: 200, Body: BHijack, Ops: "rr"},
+		{Status: 200, Body: BRaw, Size: 23},
 	}
 }
 
@@ -612,6 +616,21 @@ func run(c *mc.Ctx) {
 				atomic.AddInt64(tr, 2)
 				atomic.AddInt64(nt, 1)
 			}
+		}
+	})
+	// triples over a tiny set: what a response leaves on the recycled context (buffers, raw body, stream) meets a later
+	// response that sets no body or another kind of body
+	tiny := []Prog{{Status: 200, Body: BSetBody, Size: 5}, {Status: 200, Body: BRaw, Size: 23}, {Status: 200, Body: BNone}, {Status: 200, Body: BStreamLen, Size: 3},
+		{Status: 200, Body: BStreamChunked, Size: 2}, {Status: 301, Body: BNone}, {Status: 200, Body: BAppendWrite, Size: 4}}
+	nt3 := len(tiny)
+	c.ParallelFor(nt3*nt3*nt3, func(i int) {
+		w := getW()
+		defer func() { pool <- w }()
+		for _, last := range []string{"GET", "HEAD"} {
+			w.exec(c, Case{Reqs: []Req{{Method: "GET"}, {Method: "POST"}, {Method: last}}, Progs: []Prog{tiny[i/(nt3*nt3)], tiny[(i/nt3)%nt3], tiny[i%nt3]}})
+			atomic.AddInt64(ex, 1)
+			atomic.AddInt64(tr, 3)
+			atomic.AddInt64(nt, 1)
 		}
 	})
 	if c.Thorough() {
